@@ -41,6 +41,7 @@ typedef struct {
   unsigned char           inbox[VN_INBOX][VN_MAXDGRAM];
   size_t                  inbox_len[VN_INBOX];
   int                     inbox_cnt;
+  int                     recv_err; /* errno the next arecvfrom fails with (once), 0 = none */
 } vn_sock_t;
 
 typedef struct {
@@ -145,6 +146,11 @@ static ares_ssize_t vn_arecvfrom(ares_socket_t s, void *buf, size_t len, int fla
   (void)ud;
   if (i < 0 || i >= VN_MAXSOCK || !vn_socks[i].in_use) {
     errno = EBADF;
+    return -1;
+  }
+  if (vn_socks[i].recv_err != 0) {
+    errno                = vn_socks[i].recv_err;
+    vn_socks[i].recv_err = 0;
     return -1;
   }
   if (vn_socks[i].inbox_cnt == 0) {
